@@ -81,7 +81,7 @@ def strategy(tier):
 
 
 def examples(tier):
-    return 320 if tier == "quick" else 15000
+    return 640 if tier == "quick" else 15000
 
 
 def run_case(case):
